@@ -80,7 +80,13 @@ def _fold_const_operation(
                 val = lhs.value.data / rhs.value.data
         case _:
             return
-    return arith.ConstantOp(builtin.FloatAttr(val, lhs.type))
+    try:
+        return arith.ConstantOp(builtin.FloatAttr(val, lhs.type))
+    except OverflowError:
+        # the result does not fit the (narrower) type: it rounds to an infinity
+        return arith.ConstantOp(
+            builtin.FloatAttr(math.copysign(float("inf"), val), lhs.type)
+        )
 
 
 class FoldConstConstOp(RewritePattern):
